@@ -322,6 +322,48 @@ def f(x: FLOAT[...], n: INT64[...]):
     return g(x, 2.0), g(0.5, x), h(n, 3)
 ''', ["x:F:2 n:I:2"])
 
+P("nested_for_inner_bound_from_outer_index", '''
+@script()
+def f(x: FLOAT[...], n: INT64):
+    acc = x * 0.0
+    last = op.Identity(x)
+    for i in range(n):
+        bound = n - i - 1
+        for j in range(bound):
+            last = x + op.Cast(j, to=1) + 1.0
+        acc = acc + last
+    return acc
+''', ["x:F:2 n:I:"])
+
+P("nested_for_inner_only_assignment_two_vars", '''
+@script()
+def f(x: FLOAT[...], n: INT64, m: INT64):
+    total = x
+    u = x * 2.0
+    v = x - 1.0
+    for i in range(n):
+        for j in range(m - i):
+            u = v + 1.0
+            v = x * op.Cast(j, to=1)
+        total = total + u - v
+    return total, u
+''', ["x:F:2 n:I: m:I:"])
+
+P("for_with_inner_while_assignment", '''
+@script()
+def f(x: FLOAT[...], n: INT64):
+    acc = x
+    w = x * 0.5
+    for i in range(n):
+        c = op.ReduceSum(acc, keepdims=0) < op.Cast(i, to=1)
+        while c:
+            w = acc + 1.0
+            acc = acc + 2.0
+            c = op.ReduceSum(acc, keepdims=0) < op.Cast(i, to=1)
+        acc = acc + w
+    return acc
+''', ["x:F:2 n:I:"])
+
 # ---------------------------------------------------------------- if / else
 P("if_both", '''
 @script()
@@ -671,6 +713,33 @@ def f(x: FLOAT[...], y: FLOAT[...]):
 
 # ---------------------------------------------------------------- near-miss programs (must be refused)
 NEAR_MISS_RAW = [
+    ("undefined_on_missing_else", '''
+@script()
+def f(x: FLOAT[...], c: BOOL):
+    if c:
+        r = x + 1.0
+    return r
+'''),
+    ("undefined_on_path_global_of_same_name", '''
+scale = 5
+
+@script()
+def f(x: FLOAT[...], c: BOOL):
+    if c:
+        scale = x + 1.0
+    return x * scale
+'''),
+    ("undefined_on_else_path_global_of_same_name", '''
+gain = 2.0
+
+@script()
+def f(x: FLOAT[...], c: BOOL):
+    if c:
+        gain = x * 3.0
+    else:
+        t = x
+    return x + gain
+'''),
     ("unsupported_operator_xor", '''
 @script()
 def f(a: BOOL[...], b: BOOL[...]):
@@ -741,6 +810,15 @@ def f(x: FLOAT[...]):
         c = op.ReduceSum(x, keepdims=0) < 1.0
     else:
         x = x - 1.0
+    return x
+'''),
+    ("for_else", '''
+@script()
+def f(x: FLOAT[...], n: INT64):
+    for i in range(n):
+        x = x + 1.0
+    else:
+        x = x * 100.0
     return x
 '''),
     ("nested_def", '''
